@@ -216,8 +216,9 @@ def stats(case, hs):
     for q in case["Q"]:
         for k in q["kinds"]:
             kinds[k] = kinds.get(k, 0) + 1
-    return {"executions": len(hs), "disturbers": len(case["Q"]), "disturber_kinds": kinds, "thread_switches": sw,
-            "instructions_P": sum(1 for e in hs[0].get("events", []) if e[1] == "t") if "events" in hs[0] else 0}
+    instr = sum(h.get("counters", {}).get("instr", 0) for h in hs if isinstance(h, dict))
+    return {"executions": len(hs), "instr": instr, "disturbers": len(case["Q"]), "disturber_kinds": kinds, "thread_switches": sw,
+            "markers_P": sum(1 for e in hs[0].get("events", []) if e[1] == "t") if "events" in hs[0] else 0}
 
 
 def sample_view(case):
